@@ -90,7 +90,7 @@ func runConf(ctx *core.RunCtx) {
 		ropts = append(ropts, rt.WithRegSetMaxAge(uint([]int{0, 1, 10, 1000}[g.Choose(4)])))
 		ctx.Count("fault.knob WithRegSetMaxAge", 1)
 	}
-	s := core.NewSched(ctx.Sch, 60000)
+	s := core.NewSched(ctx.Sch, 3000000)
 	log := core.GetLog()
 	defer core.PutLog(log)
 	s.Begin()
